@@ -38,7 +38,7 @@ def extra(ctx: fw.Ctx):
             if again != r.out:
                 scoped = r.op[1].startswith("@")
                 ctx.fail({"clause": "edit-output-fixed-point", "op": r.op[0], "scoped": scoped,
-                          "wrapper": h.info.get("wrapper")},
+                          "wrapper": h.info.get("wrapper"), "kind": "raises" if again.startswith("<raises") else "drift"},
                          {"text": r.out, "doc": h.text, "ops": [list(x.op) for x in h.recs], "at": list(r.op)},
                          f"output of {r.op!r} is not a fixed point: {r.out!r} -> {again!r}")
 
